@@ -7,17 +7,17 @@ use crate::{State, guarded};
 use serde_json::{Value, json};
 use std::time::Instant;
 
-fn some_or_fail<T>(o: Option<T>) -> Value {
+fn some_or_fail<T>(o: Option<T>) -> &'static str {
     match o {
         Some(x) => {
             drop(x);
-            json!({"outcome": "value"})
+            "value"
         }
-        None => json!({"outcome": "fail"}),
+        None => "fail",
     }
 }
 
-fn call(st: &mut State, entry: &str, input: &[u8], cmd: &Value) -> Value {
+fn call(st: &mut State, entry: &str, input: &[u8], cmd: &Value) -> &'static str {
     use physis::common::Platform;
     match entry {
         // ---- C17: user and launcher files
@@ -32,7 +32,7 @@ fn call(st: &mut State, entry: &str, input: &[u8], cmd: &Value) -> Value {
             let text = String::from_utf8_lossy(input).to_string();
             let pl = physis::patchlist::PatchList::from_string(kind(), &text);
             let _ = pl.to_string(kind());
-            json!({"outcome": "value"})
+            "value"
         }
         "patch.apply" => {
             let base = casedir(st, cmd, "fpatch");
@@ -50,8 +50,8 @@ fn call(st: &mut State, entry: &str, input: &[u8], cmd: &Value) -> Value {
             let r = physis::patch::ZiPatch::apply(data.to_str().unwrap(), pf.to_str().unwrap());
             let _ = std::fs::remove_dir_all(&base);
             match r {
-                Ok(()) => json!({"outcome": "value", "ok": true}),
-                Err(_) => json!({"outcome": "fail"}),
+                Ok(()) => "value",
+                Err(_) => "fail",
             }
         }
         "bootdata" | "gamedata.open" | "frontier_url" | "index.open" | "dat.read" => {
@@ -97,7 +97,7 @@ fn call(st: &mut State, entry: &str, input: &[u8], cmd: &Value) -> Value {
                     }
                     match physis::sqpack::SqPackData::from_existing(f.to_str().unwrap()) {
                         Some(mut d) => some_or_fail(d.read_from_offset(geti(cmd, "off") as u64)),
-                        None => json!({"outcome": "fail"}),
+                        None => "fail",
                     }
                 }
                 _ => {
@@ -115,9 +115,9 @@ fn call(st: &mut State, entry: &str, input: &[u8], cmd: &Value) -> Value {
                                 any |= gd.extract(&p).is_some();
                                 any |= gd.find_offset(&p).is_some();
                             }
-                            json!({"outcome": if any { "value" } else { "fail" }})
+                            if any { "value" } else { "fail" }
                         }
-                        None => json!({"outcome": "fail"}),
+                        None => "fail",
                     }
                 }
             };
@@ -132,16 +132,16 @@ fn call(st: &mut State, entry: &str, input: &[u8], cmd: &Value) -> Value {
                 for sel in [0u32, 1, 0xFFFFFFFF, 0x12345678] {
                     let _ = s.find_node(sel);
                 }
-                json!({"outcome": "value"})
+                "value"
             }
-            None => json!({"outcome": "fail"}),
+            None => "fail",
         },
         "tex" => some_or_fail(physis::tex::Texture::from_existing(input)),
         "exh" => some_or_fail(physis::exh::EXH::from_existing(input)),
         "exd" => {
             // the damaged data file is read with its (valid) header: every listed id and a few more
             let Some(exh) = physis::exh::EXH::from_existing(&unhex(cmd["_exh"].as_str().unwrap_or(""))) else {
-                return json!({"outcome": "toolerror", "msg": "bad exh"});
+                return "toolerror";
             };
             match physis::exd::EXD::from_existing(input) {
                 Some(d) => {
@@ -149,9 +149,9 @@ fn call(st: &mut State, entry: &str, input: &[u8], cmd: &Value) -> Value {
                     for id in cmd["ids"].as_array().cloned().unwrap_or_default() {
                         any |= d.read_row(&exh, id.as_u64().unwrap_or(0) as u32).is_some();
                     }
-                    json!({"outcome": if any { "value" } else { "fail" }})
+                    if any { "value" } else { "fail" }
                 }
-                None => json!({"outcome": "fail"}),
+                None => "fail",
             }
         }
         "sklb" => some_or_fail(physis::skeleton::Skeleton::from_existing(input)),
@@ -160,9 +160,9 @@ fn call(st: &mut State, entry: &str, input: &[u8], cmd: &Value) -> Value {
                 for (a, b) in [(101u16, 201u16), (201, 101), (101, 9999), (0, 101), (101, 301), (301, 101)] {
                     let _ = p.get_deform_matrices(a, b);
                 }
-                json!({"outcome": "value"})
+                "value"
             }
-            None => json!({"outcome": "fail"}),
+            None => "fail",
         },
         "cmp" => some_or_fail(physis::cmp::CMP::from_existing(input)),
         "tera" => some_or_fail(physis::tera::Terrain::from_existing(input)),
@@ -181,7 +181,7 @@ fn call(st: &mut State, entry: &str, input: &[u8], cmd: &Value) -> Value {
         "phyb" => some_or_fail(physis::phyb::Phyb::from_existing(input)),
         "pap" => some_or_fail(physis::pap::Pap::from_existing(input)),
         "sqdb" => some_or_fail(physis::sqpack::SqPackDatabase::from_existing(input)),
-        _ => json!({"outcome": "toolerror", "msg": format!("unknown entry {entry}")}),
+        _ => "toolerror",
     }
 }
 
@@ -191,13 +191,22 @@ pub fn run(st: &mut State, op: &str, cmd: &Value) -> Value {
     }
     let entry = cmd["entry"].as_str().unwrap_or("").to_string();
     let input = unhex(cmd["_hex"].as_str().unwrap_or(""));
+    // zlib-rs allocates its inflate state with libc's allocator directly (not through #[global_allocator]), so the
+    // residual is taken from malloc's own accounting, which covers both
+    let in_use = || unsafe { libc::mallinfo2().uordblks };
     let live0 = alloc::live();
+    let m0 = in_use();
     alloc::reset_peak();
     let t0 = Instant::now();
-    let mut r = guarded(|| call(st, &entry, &input, cmd));
+    // nothing is allocated by the shim between the call and the measurements (the outcome is a static string)
+    let out = std::panic::catch_unwind(std::panic::AssertUnwindSafe(|| call(st, &entry, &input, cmd)));
     let ms = t0.elapsed().as_millis() as u64;
     let peak = alloc::peak().saturating_sub(live0);
-    let residual = alloc::live().saturating_sub(live0);
+    let residual = alloc::live().saturating_sub(live0).max(in_use().saturating_sub(m0));
+    let mut r = match out {
+        Ok(code) => json!({"outcome": code}),
+        Err(_) => guarded(|| std::panic::resume_unwind(Box::new(()))),
+    };
     if let Some(o) = r.as_object_mut() {
         o.insert("ms".into(), json!(ms));
         o.insert("peak".into(), json!(peak.min(i32::MAX as usize)));
